@@ -72,6 +72,44 @@ impl Group for SessGroup {
             if rng.chance(1, 4) { if !opts.is_empty() { opts.push(' '); } opts.push_str("ss=foo:bar"); }
         }
         let mut lines = vec![reset_line("sess", role, &scheme, seed, &opts)];
+        if rng.chance(2, 5) {
+            // stream lifecycle: open, data chunks of assorted sizes, reads smaller and larger than the chunks
+            // interleaved at random, FIN, reads until end of stream; sibling streams in between
+            let nstreams = rng.range(1, 3);
+            let mut script: Vec<(u64, String)> = vec![]; // (stream, op)
+            for st in 0..nstreams {
+                let sid = st + 1;
+                let mut ops: Vec<String> = vec![];
+                if role == "client" { ops.push("open".into()); if rng.chance(1, 2) { ops.push(format!("feed {}", hex(&ref_encode(7, sid as u32, &[])))); } }
+                else { ops.push(format!("feed {}", hex(&ref_encode(1, sid as u32, &[])))); }
+                let nchunks = rng.range(1, 6);
+                for _ in 0..nchunks {
+                    let n = *rng.pick(&[0usize, 1, 2, 5, 9, 17, 40, 300, 9000, 65535]);
+                    let d = if n > 64 { vec![(sid as u8) << 4 | (rng.next() as u8 & 15); n] } else { rng.bytes(n) };
+                    ops.push(format!("feed {}", hex_compact(&ref_encode(2, sid as u32, &d))));
+                    if rng.chance(1, 2) { ops.push(format!("read {} {}", st, rng.pick(&[1usize, 3, 8, 16, 100, 8192, 70000]))); }
+                }
+                if rng.chance(5, 6) { ops.push(format!("feed {}", hex(&ref_encode(3, sid as u32, &[])))); }
+                for _ in 0..rng.range(2, 9) { ops.push(format!("read {} {}", st, rng.pick(&[1usize, 3, 8, 16, 100, 8192, 70000]))); }
+                ops.push(format!("read {} 70000", st));
+                ops.push(format!("read {} 70000", st));
+                for o in ops { script.push((st, o)); }
+            }
+            // merge the per-stream scripts preserving each stream's order
+            let mut idx = vec![0usize; nstreams as usize];
+            let per: Vec<Vec<String>> = (0..nstreams).map(|st| script.iter().filter(|(s2, _)| *s2 == st).map(|(_, o)| o.clone()).collect()).collect();
+            // streams must be opened in order (handle numbers are assigned in creation order)
+            for st in 0..nstreams as usize { lines.push(format!("sess {}", per[st][0])); idx[st] = 1; }
+            loop {
+                let live: Vec<usize> = (0..nstreams as usize).filter(|st| idx[*st] < per[*st].len()).collect();
+                if live.is_empty() { break; }
+                let st = *rng.pick(&live);
+                lines.push(format!("sess {}", per[st][idx[st]]));
+                idx[st] += 1;
+            }
+            lines.push("sess state".into());
+            return Case { lines };
+        }
         let short = rng.chance(1, 5);
         if short { lines.push(format!("sess shortw {}", rng.pick(&[1u32, 2, 7, 16, 33]))); }
         let nops = rng.range(4, 24);
@@ -133,6 +171,13 @@ impl Group for SessGroup {
 pub fn exec_node_case(case: &Case, prefix: &str) -> Outcome {
     let rt = runtime();
     let mut out = Outcome::default();
+    // O (C01/C08): when nothing kills the session or re-opens an id, a stream's reader obtains exactly the
+    // payloads fed for its id while it was registered, and end of stream only after all of them
+    let clean = !case.lines.iter().any(|l| { let t: Vec<&str> = l.split_whitespace().collect(); matches!(t.get(1), Some(&"close") | Some(&"eof") | Some(&"rderr") | Some(&"budget") | Some(&"shortw")) || (t.get(1) == Some(&"feed") && t.get(2).map(|h| h.starts_with("05")).unwrap_or(false)) });
+    let mut fed: std::collections::BTreeMap<u32, Vec<u8>> = std::collections::BTreeMap::new();
+    let mut registered: std::collections::BTreeMap<u32, u32> = std::collections::BTreeMap::new(); // sid -> times opened
+    let mut finished: std::collections::BTreeSet<u32> = std::collections::BTreeSet::new();
+    let mut readb: std::collections::BTreeMap<usize, Vec<u8>> = std::collections::BTreeMap::new();
     rt.block_on(async {
         let mut node: Option<Node> = None;
         for line in &case.lines {
@@ -158,6 +203,38 @@ pub fn exec_node_case(case: &Case, prefix: &str) -> Outcome {
                 Some(n) => {
                     let o = n.op(toks).await;
                     out.tags.push(format!("op={}", toks[0]));
+                    if clean {
+                        match toks {
+                            ["open"] => { if let Some(p) = o.split("sid=").nth(1) { if let Ok(v) = p.split(' ').next().unwrap().parse::<u32>() { *registered.entry(v).or_insert(0) += 1; } } }
+                            ["feed", hx] => {
+                                for (c, sid, d) in crate::g_frame::ref_parse(&unhex(hx).unwrap_or_default()).0 {
+                                    if c == 1 && !n.is_client { *registered.entry(sid).or_insert(0) += 1; }
+                                    if c == 2 && registered.contains_key(&sid) && !finished.contains(&sid) { fed.entry(sid).or_default().extend_from_slice(&d); }
+                                    if c == 3 { finished.insert(sid); }
+                                }
+                            }
+                            ["read", h, _] => {
+                                if let Some(hd) = h.parse::<usize>().ok().and_then(|h| n.handles.get(h).map(|x| (h, x.stream.id()))) {
+                                    let (h, sid) = hd;
+                                    if registered.get(&sid) == Some(&1) {
+                                        if let Some(hx) = o.strip_prefix("data ") { readb.entry(h).or_default().extend_from_slice(&unhex(hx.split(' ').next().unwrap()).unwrap_or_default()); }
+                                        let r = readb.get(&h).cloned().unwrap_or_default();
+                                        let w = fed.get(&sid).cloned().unwrap_or_default();
+                                        if !w.starts_with(&r) {
+                                            out.oracle.push(OracleFail { sig: "not_a_prefix/stream_reader".into(), detail: format!("stream {sid}: {} bytes read are not a prefix of the {} bytes delivered to the session", r.len(), w.len()) });
+                                        }
+                                        if o.starts_with("eof") && r != w {
+                                            out.oracle.push(OracleFail { sig: "eof_before_all_data/stream_reader".into(), detail: format!("stream {sid}: end of stream after {} of {} bytes", r.len(), w.len()) });
+                                        }
+                                        if o.starts_with("eof") && !finished.contains(&sid) {
+                                            out.oracle.push(OracleFail { sig: "premature_eof/stream_reader".into(), detail: format!("stream {sid}: end of stream reported while the stream is open") });
+                                        }
+                                    }
+                                }
+                            }
+                            _ => {}
+                        }
+                    }
                     if o.starts_with("blocked") {
                         out.oracle.push(OracleFail { sig: format!("blocked_forever/{}", toks[0]), detail: format!("operation `{}` did not complete within the virtual watchdog", line) });
                     }
